@@ -36,6 +36,9 @@ def factory(prop):
     if prop == "C17":
         from engines.bytes_tls import TLSCheck
         return TLSCheck()
+    if prop == "C18":
+        from engines.bytes_sock import SockCheck
+        return SockCheck()
     raise SystemExit(f"unknown property {prop}")
 
 
